@@ -22,6 +22,22 @@ def run(ctx: Ctx, chk) -> None:
     from .c15 import load_guard
 
     chk.run_rule(load_guard, ctx)
+    chk.run_rule(enter_esc, ctx)
+    from .mmtemplates import template1
+
+    chk.run_rule(lambda c, k: template1(c, k, ["aiomysensors.model.node.NodeSchema", "aiomysensors.model.node.ChildSchema"]), ctx)
+
+
+def enter_esc(ctx: Ctx, chk) -> None:
+    rule = "ENTER-ESC"
+    chk.rule(rule, "observed at Gateway.__aenter__: whatever the persistence file holds, entering the gateway context raises nothing but errors derived from the library's base exception class (the persistence read error for the file; transport errors belong to the connect step) - nothing the entry code does with the restored registry lets another exception type out")
+    from .common import escape_rule
+
+    eea = ctx.eea()
+    f = ctx.func("aiomysensors.gateway.Gateway.__aenter__")
+    esc = eea._apply_suppressions(eea.escapes_of(f, None))
+    BASE = "aiomysensors.exceptions.AIOMySensorsError"
+    escape_rule(ctx, chk, rule, [("Gateway.__aenter__", esc)], lambda exc, site: eea.issub(exc, BASE), eea)
 
 
 def eea_pload(ctx: Ctx, chk) -> None:
